@@ -26,6 +26,12 @@ int main(void) {
     printf("w64o0 expB %u\n", m_w64o0(&inst, addr, 0x0506070855667788ull, 0));
     printf("w64o16 expA %u\n", m_w64o16(&inst, addr, 0x0102030411223344ull, 0));
     printf("w64o16 expB %u\n", m_w64o16(&inst, addr, 0x0506070855667788ull, 0));
+    /* all 64 bits are compared: expected values that differ from the cell only in the upper / only in the lower half */
+    printf("w64o0 expHiB %u\n", m_w64o0(&inst, addr, 0x0506070811223344ull, 0));
+    printf("w64o0 expLoB %u\n", m_w64o0(&inst, addr, 0x0102030455667788ull, 0));
+    /* only 32 bits are compared by wait32: the neighbouring word differs from anything in the expected operand */
+    m_init32(&inst, addr, 0x11223344u); m_init32(&inst, addr + 4, 0xdeadbeefu);      /* 32-bit cells written by 32-bit stores (see above) */
+    printf("w32o0 expA-again %u\n", m_w32o0(&inst, addr, 0x11223344u, 0));
     /* nobody waits: notify returns 0 whatever the offset, and the map must be empty again */
     printf("no0 %u\n", m_no0(&inst, addr, 1));
     printf("no16 %u\n", m_no16(&inst, addr, 1));
